@@ -6,6 +6,7 @@ pub mod adapters;
 pub mod deadline;
 pub mod hookproto;
 pub mod misc;
+pub mod text;
 
 #[derive(Clone, Copy, PartialEq, Eq, Debug)]
 pub enum Tier {
